@@ -130,6 +130,30 @@ func c04One(r *fw.Rec, id, x string) {
 			}
 		}
 	}
+	// binding of global names: every named global, function, alias and ifunc is
+	// spelled as often in the printed module as in the input; a use resolved to
+	// another definition (the function behind an alias, a global of a similar
+	// name) changes the counts although every object is listed in the module
+	if len(c.Problems) == 0 {
+		if y, pp := printGuard(m); pp == "" {
+			gx, gy := globalNameTokens(x), globalNameTokens(y)
+			names := map[string]bool{}
+			for n := range gx {
+				names[n] = true
+			}
+			for n := range gy {
+				names[n] = true
+			}
+			for _, n := range fw.SortedKeys(names) {
+				if gx[n] != gy[n] {
+					r.Violate(fw.Violation{Key: "binding/" + id + "/global-name", Input: x,
+						What: fmt.Sprintf("@%s is written %d times in the input and %d times in the printed module: a use is bound to another definition", n, gx[n], gy[n]), Observed: y})
+					break
+				}
+			}
+			r.TallyN("reference_slots", "binding.global-name-tokens", len(gx))
+		}
+	}
 	if total > 0 {
 		r.Nontrivial(x)
 	}
@@ -302,4 +326,86 @@ func paramName(line string, i int) bool {
 		k--
 	}
 	return k >= 0 && line[k] != '(' && line[k] != ','
+}
+
+// globalNameTokens counts the `@name` / `@"name"` tokens of a module text outside
+// strings and comments, by decoded name; numbered globals (`@7`) are left out
+// (they are renumbered by the printer).
+func globalNameTokens(text string) map[string]int {
+	out := map[string]int{}
+	for _, line := range strings.Split(text, "\n") {
+		for i := 0; i < len(line); {
+			c := line[i]
+			switch {
+			case c == ';':
+				i = len(line)
+			case c == '@':
+				j := i + 1
+				var name string
+				if j < len(line) && line[j] == '"' {
+					k := j + 1
+					for k < len(line) && line[k] != '"' {
+						k++
+					}
+					name = string(unescapeLL(line[j+1 : min(k, len(line))]))
+					j = min(k+1, len(line))
+					if name != "" {
+						out[name]++
+					}
+				} else {
+					for j < len(line) && (line[j] == '-' || line[j] == '$' || line[j] == '.' || line[j] == '_' || line[j] >= '0' && line[j] <= '9' || line[j] >= 'a' && line[j] <= 'z' || line[j] >= 'A' && line[j] <= 'Z') {
+						j++
+					}
+					name = line[i+1 : j]
+					allDigits := name != ""
+					for k := 0; k < len(name); k++ {
+						if name[k] < '0' || name[k] > '9' {
+							allDigits = false
+						}
+					}
+					if name != "" && !allDigits {
+						out[name]++
+					}
+				}
+				i = j
+			case c == '"':
+				i++
+				for i < len(line) && line[i] != '"' {
+					i++
+				}
+				i++
+			default:
+				i++
+			}
+		}
+	}
+	return out
+}
+
+// unescapeLL decodes the \XX escapes of an LLVM string or quoted name.
+func unescapeLL(s string) []byte {
+	var out []byte
+	hexv := func(c byte) int {
+		switch {
+		case c >= '0' && c <= '9':
+			return int(c - '0')
+		case c >= 'a' && c <= 'f':
+			return int(c-'a') + 10
+		case c >= 'A' && c <= 'F':
+			return int(c-'A') + 10
+		}
+		return -1
+	}
+	for i := 0; i < len(s); i++ {
+		if s[i] == '\\' && i+2 < len(s)+0 && i+2 <= len(s)-1 && hexv(s[i+1]) >= 0 && hexv(s[i+2]) >= 0 {
+			out = append(out, byte(hexv(s[i+1])*16+hexv(s[i+2])))
+			i += 2
+		} else if s[i] == '\\' && i+1 < len(s) && s[i+1] == '\\' {
+			out = append(out, '\\')
+			i++
+		} else {
+			out = append(out, s[i])
+		}
+	}
+	return out
 }
